@@ -92,6 +92,8 @@ where
         // Set a drop guard to ensure that the task is deallocated whether
         // or not the `core` member panics when dropped.
         let _drop_guard = RunOnDrop::new(|| {
+            #[cfg(nexosim_verif)]
+            crate::verif::probe_task(true);
             dealloc(ptr as *mut u8, Layout::new::<Task<F, S, T>>());
         });
 
